@@ -48,3 +48,23 @@ package pgptools
 //@   ghost drained bool = false
 //@   on call io.Copy(_, src) ret (n, e): drained = (e == nil && src == md.UnverifiedBody)
 //@   ensures @success_only_after_the_body_was_read_to_its_end_and_the_library_reported_no_signature_error ret1 == nil ==> drained && md.SignatureError == nil && ret0 != nil
+//@
+//@ func serializeHeader
+//@   property C05
+//@   nopanic
+//@   requires 0 <= ptype && ptype < 64 && 0 <= length && length <= 4294967295 && w != nil
+//@   modifies sink w
+//@   before call invoke io.Writer.Write(ww, p): assert @new_format_packet_header_whose_length_octets_decode_to_the_body_length_per_rfc4880_4_2_2 ww == w && len(p) >= 2 && p[0] == 192 + ptype && \
+//@        ((len(p) == 2 && p[1] < 192 && p[1] == old(length)) || \
+//@         (len(p) == 3 && 192 <= p[1] && p[1] < 224 && (p[1] - 192) * 256 + p[2] + 192 == old(length)) || \
+//@         (len(p) == 6 && p[1] == 255 && p[2] * 16777216 + p[3] * 65536 + p[4] * 256 + p[5] == old(length)))
+//@
+//@ func serializeLiteral
+//@   property C05
+//@   requires size >= 0 && w != nil
+//@   deadedges 1
+//@   ghost hdr bool = false
+//@   before call serializeHeader(ww, t, n): assert @literal_data_packet_whose_length_covers_mode_name_date_and_the_data ww == w && t == 11 && n == size + 6 + min(len(old(filename)), 255) && !hdr
+//@   on call serializeHeader(_, _, _) ret (e): hdr = (e == nil)
+//@   before call invoke io.Writer.Write(ww, p): assert @fixed_fields_follow_the_header ww == w && hdr && len(p) == 6 + min(len(old(filename)), 255)
+//@   before call io.CopyN(dst, src, n): assert @exactly_the_announced_number_of_data_octets dst == w && src == r && n == size && hdr
